@@ -552,7 +552,9 @@ func (g *Gen) instr(ins ssa.Instruction) {
 	case *ssa.Phi:
 		return
 	case *ssa.Call:
+		g.curCall = x
 		g.vals[x] = g.call(x, x.Common(), x.Pos())
+		g.curCall = nil
 		if callee := x.Common().StaticCallee(); callee != nil {
 			g.atPoint("call", callee.Name(), x, x.Pos())
 		}
@@ -692,6 +694,15 @@ func (g *Gen) unop(x *ssa.UnOp) *Val {
 	switch x.Op {
 	case token.MUL: // load
 		g.nilCheck(v, x.Pos(), "load")
+		if _, _, isInt := intInfo(x.Type()); isInt && len(v.S) >= 2 {
+			for _, cc := range g.cellConst {
+				if cc[0] == v.S[0] && cc[1] == v.S[1] {
+					g.oblige("constcell", fmt.Sprintf("(= %s %s)", sel2(g.heap["Int"], v.S[0], v.S[1]), cc[2]), x.Pos(),
+						"the cell fixed by the contract's case split still holds its value at this load", nil)
+					return scalar("Int", cc[2], x.Type())
+				}
+			}
+		}
 		lv := g.loadFrom(g.heap, x.Type(), v.S[0], v.S[1])
 		// name the cells to keep terms small, and assume type ranges of what was loaded
 		named := make([]string, len(lv.S))
@@ -996,6 +1007,18 @@ func (g *Gen) binop(x *ssa.BinOp) *Val {
 		if _, _, ok := intInfo(x.X.Type()); !ok {
 			return g.havocVal(t, "cmp")
 		}
+		if isNum(a.S[0]) && isNum(b.S[0]) {
+			// comparison of numerals (concrete counters of unrolled loops): decided here, so that infeasible loop exits
+			// are not recorded
+			xa, _ := new(big.Int).SetString(a.S[0], 10)
+			xb, _ := new(big.Int).SetString(b.S[0], 10)
+			c := xa.Cmp(xb)
+			r := map[string]bool{"<": c < 0, "<=": c <= 0, ">": c > 0, ">=": c >= 0}[op]
+			if r {
+				return scalar("Bool", "true", t)
+			}
+			return scalar("Bool", "false", t)
+		}
 		return scalar("Bool", fmt.Sprintf("(%s %s %s)", op, a.S[0], b.S[0]), t)
 	case token.LAND:
 		return scalar("Bool", and(a.S[0], b.S[0]), t)
@@ -1023,6 +1046,37 @@ func (g *Gen) binop(x *ssa.BinOp) *Val {
 			return scalar("Int", r, t)
 		}
 		return scalar("Int", g.def("u"+x.Name(), "Int", fmt.Sprintf("(mod %s %s)", raw, pow2s(bits))), t)
+	}
+	// both operands are numerals (concrete counters of unrolled loops): compute, when the result is in range
+	if isNum(A) && isNum(B) && B != "0" && (x.Op == token.QUO || x.Op == token.REM) { // numerals are non-negative: truncation == floor
+		xa, _ := new(big.Int).SetString(A, 10)
+		xb, _ := new(big.Int).SetString(B, 10)
+		if x.Op == token.QUO {
+			return scalar("Int", new(big.Int).Div(xa, xb).String(), t)
+		}
+		return scalar("Int", new(big.Int).Mod(xa, xb).String(), t)
+	}
+	if isNum(A) && isNum(B) && (x.Op == token.ADD || x.Op == token.SUB || x.Op == token.MUL) {
+		xa, _ := new(big.Int).SetString(A, 10)
+		xb, _ := new(big.Int).SetString(B, 10)
+		r := new(big.Int)
+		switch x.Op {
+		case token.ADD:
+			r.Add(xa, xb)
+		case token.SUB:
+			r.Sub(xa, xb)
+		case token.MUL:
+			r.Mul(xa, xb)
+		}
+		lo, hi := big.NewInt(0), new(big.Int).Lsh(big.NewInt(1), 63)
+		if bits != 0 && !signed {
+			hi = new(big.Int).Lsh(big.NewInt(1), uint(bits))
+		} else if bits != 0 {
+			hi = new(big.Int).Lsh(big.NewInt(1), uint(bits-1))
+		}
+		if r.Cmp(lo) >= 0 && r.Cmp(hi) < 0 {
+			return scalar("Int", r.String(), t)
+		}
 	}
 	switch x.Op {
 	case token.ADD:
@@ -1323,7 +1377,8 @@ func (g *Gen) atPoint(kind, callee string, ins ssa.Instruction, pos token.Pos) {
 		return
 	}
 	key := kind + ":" + callee
-	if g.pointCount == nil {
+	g.ensurePointCount()
+	if false {
 		g.pointCount = map[ssa.Instruction]int{}
 		cnt := map[string]int{}
 		// ordinals follow source order: blocks by index, instructions in order
@@ -1392,6 +1447,10 @@ func (g *Gen) atPoint(kind, callee string, ins ssa.Instruction, pos token.Pos) {
 						srt = v.Sort
 					} else if v.Agg && v.T != nil {
 						srt = g.lay.Cells(v.T)[i].Sort
+					}
+					if isNum(t) {
+						nv.S = append(nv.S, t) // numerals stay literal (weights of unrolled iterations)
+						continue
 					}
 					nv.S = append(nv.S, g.def("gh_"+as.Name, srt, t))
 				}
@@ -1576,6 +1635,10 @@ func (g *Gen) atLoopBody(li *loopInfo, at ssa.Instruction) {
 					} else if v.Agg && v.T != nil {
 						srt = g.lay.Cells(v.T)[i].Sort
 					}
+					if isNum(t) {
+						nv.S = append(nv.S, t) // numerals stay literal (weights of unrolled iterations)
+						continue
+					}
 					nv.S = append(nv.S, g.def("gh_"+as.Name, srt, t))
 				}
 				g.lets[as.Name] = &nv
@@ -1609,6 +1672,10 @@ func (g *Gen) instFact(env *Env, as *AtStmt) {
 			return
 		}
 		// name the argument so the instance is small
+		if isNum(v.S[0]) {
+			entry.vars[bv.Name] = scalar(sortOfSpecName(bv.Sort), v.S[0], nil)
+			continue
+		}
 		entry.vars[bv.Name] = scalar(sortOfSpecName(bv.Sort), g.def("inst_"+bv.Name, sortOfSpecName(bv.Sort), v.S[0]), nil)
 	}
 	g.assume(g.specBool(entry, fd.C.E))
@@ -1710,4 +1777,53 @@ func (g *Gen) stablePaths(li *loopInfo, check bool, pos token.Pos) {
 			g.assumeRaw(and(eqs...))
 		}
 	}
+}
+
+func (g *Gen) ensurePointCount() {
+	if g.pointCount != nil {
+		return
+	}
+	g.pointCount = map[ssa.Instruction]int{}
+	cnt := map[string]int{}
+	// ordinals follow source order: blocks by index, instructions in order
+	for _, b := range g.fn.Blocks {
+		for _, i := range b.Instrs {
+			switch y := i.(type) {
+			case *ssa.Store:
+				g.pointCount[i] = cnt["store:"]
+				cnt["store:"]++
+			case *ssa.Return:
+				g.pointCount[i] = cnt["return:"]
+				cnt["return:"]++
+			case *ssa.Go:
+				g.pointCount[i] = cnt["go:"]
+				cnt["go:"]++
+			case *ssa.Call:
+				if c := y.Common().StaticCallee(); c != nil {
+					g.pointCount[i] = cnt["call:"+c.Name()]
+					cnt["call:"+c.Name()]++
+				}
+			}
+		}
+	}
+}
+
+// passDirective: the `pass` statement for schema fact of the call being processed, if any.
+func (g *Gen) passDirective(fact string) *AtStmt {
+	if g.curCall == nil {
+		return nil
+	}
+	callee := g.curCall.Common().StaticCallee()
+	if callee == nil {
+		return nil
+	}
+	g.ensurePointCount()
+	ord := g.pointCount[g.curCall]
+	for _, as := range g.ct.Ats {
+		if as.Kind == "pass" && as.PointKind == "call" && as.Callee == callee.Name() && (as.Ordinal == ord || as.Ordinal == -1) && as.Name == fact {
+			as.Used = true
+			return as
+		}
+	}
+	return nil
 }
